@@ -199,6 +199,8 @@ pub enum Cmd {
     /// like S, but loads the state into the EXISTING CPU object (same top address) instead of creating a
     /// new one: anything the implementation keeps outside the modelled state survives
     SR(Box<St>),
+    /// like S, but always into a freshly constructed CPU object (its slice clock starts now)
+    SN(Box<St>),
     /// patch registers + control, keep memory
     P(Box<St>),
     X,
@@ -229,6 +231,8 @@ pub enum Cmd {
     SF(u32),
     /// register-pair accessor round trip: set pair `which` (0 BC 1 DE 2 HL 3 IX 4 IY 5 AF) to `v`
     SetPair(u8, u16),
+    /// the host stalls for that many milliseconds (the model has no clock: a no-op there)
+    Nap(u32),
 }
 
 impl Cmd {
@@ -236,6 +240,7 @@ impl Cmd {
         match self {
             Cmd::S(s) => s.line(),
             Cmd::SR(s) => s.line(),
+            Cmd::SN(s) => format!("SN{}", &s.line()[1..]),
             Cmd::P(s) => format!("P {}", s.regctl_text()),
             Cmd::X => "X".into(),
             Cmd::T => "T 0".into(),
@@ -259,6 +264,7 @@ impl Cmd {
             Cmd::SD(d) => format!("SD {:X}", d),
             Cmd::SetPair(w, v) => format!("SP16 {} {:04X}", w, v),
             Cmd::SF(n8) => format!("SF {:X}", n8),
+            Cmd::Nap(ms) => format!("NAP {:X}", ms),
             Cmd::Sync | Cmd::SetPC(_) | Cmd::Singles { .. } => "<runtime>".into(),
         }
     }
@@ -452,6 +458,13 @@ impl Imp {
                 };
                 format!("{} {:04X}", state_reply(&self.cpu, 0), got)
             }
+            Cmd::SN(s) => {
+                let keep = self.reuse;
+                self.reuse = false;
+                let r = self.exec(&Cmd::S(s.clone()));
+                self.reuse = keep;
+                r
+            }
             Cmd::S(s) if self.reuse && self.cpu.bus.verif_mem().len() == s.top as usize + 1 => {
                 // keep the CPU object: anything the implementation carries from one call to the next
                 // outside the modelled state then shows up as a disagreement
@@ -602,6 +615,10 @@ impl Imp {
             }
             Cmd::SD(d) => {
                 self.cpu.set_slice_duration(*d);
+                "ok".into()
+            }
+            Cmd::Nap(ms) => {
+                std::thread::sleep(std::time::Duration::from_millis(*ms as u64));
                 "ok".into()
             }
             Cmd::SF(n8) => {
